@@ -442,6 +442,9 @@ func (f *Frame) pruneForCase(cc *CaseContract) {
 			if s == nil || isOpaqueStruct(p.Type()) {
 				continue
 			}
+			if _, isPtr := p.Type().Underlying().(*types.Pointer); isPtr {
+				continue // a pointer parameter is not a struct value: the guard is only assumed (it reads the heap)
+			}
 			ss := f.e.sorts.structSortOf(sT, s)
 			old := f.vals[p]
 			parts := []string{}
